@@ -29,6 +29,7 @@ import circuits.core.helpers as _helpers
 
 MAXTICKS = 300
 MAXWAITS = 60
+MAXDISP = 6000
 NUSER = 5
 
 
@@ -103,6 +104,7 @@ class Driver:
         self.waits = 0
         self.runaway = False
         self.ngen = 0
+        self.ndisp = 0
         self.serial = 0
         self.fired = {}
         self.dispatched = set()
@@ -116,6 +118,10 @@ class Driver:
         d = {'channel': '*'}
 
         def _all(self, event, *args, **kwargs):
+            drv.ndisp += 1
+            if drv.ndisp > MAXDISP:
+                drv.runaway = True
+            drv.check()
             nm = event.name
             k = {'started': 0, 'stopped': 1, 'generate_events': 2, 'exception': 3}.get(nm)
             if k is None and nm[:1] == 'e' and nm[1:].isdigit():
@@ -130,6 +136,7 @@ class Driver:
 
         def mk_plain(k, i, b):
             def fn(self, *args, **kwargs):
+                drv.check()
                 log.append([2, k, i])
                 drv.do_acts(b['a'])
                 drv.finish(b['r'])
@@ -137,6 +144,7 @@ class Driver:
 
         def mk_gen(k, i, b):
             def fn(self, *args, **kwargs):
+                drv.check()
                 g = drv.ngen
                 drv.ngen += 1
                 log.append([3, k, i, g])
@@ -144,6 +152,7 @@ class Driver:
 
             def gen(g):
                 for j, (acts, r) in enumerate(b['s']):
+                    drv.check()
                     log.append([4, g, j])
                     drv.do_acts(acts)
                     if r[0] == 'y':
@@ -184,7 +193,12 @@ class Driver:
         self.serial += 1
         return ev
 
+    def check(self):
+        if self.runaway:
+            raise Runaway('runaway program')
+
     def do_stop(self, thr, code):
+        self.check()
         self.log.append([5, None if code is None else [code]])
         if thr:
             for kind, v in in_thread(lambda: self.app.stop(code)):
